@@ -229,9 +229,13 @@ def run_case(spec):
         w.writeheader()
         for k, ps in enumerate(pipes):
             for i, o in enumerate(ps["ops"]):
-                w.writerow({"pipeline_id": f"pipe-{k}", "arrival_seconds": fmt_num(ps["tick"] * (1.0 / tps), fmt[0]) if i == 0 else "",
-                            "priority": ps["prio"] if i == 0 else "", "operator_id": f"o{i}",
-                            "parents": (";" if fmt[1] < 3 else " ; ").join(f"o{j}" for j in o["parents"]),
+                wf = fmt[5] >= 3     # the writer's own naming (p<n>, op<n>) and separator, parents in a declared, non-sorted order
+                plist = list(o["parents"])
+                if wf and len(plist) > 1:
+                    plist = plist[fmt[6] % len(plist):] + plist[:fmt[6] % len(plist)]
+                w.writerow({"pipeline_id": f"p{k + 1}" if wf else f"pipe-{k}", "arrival_seconds": fmt_num(ps["tick"] * (1.0 / tps), fmt[0]) if i == 0 else "",
+                            "priority": ps["prio"] if i == 0 else "", "operator_id": f"op{i + 1}" if wf else f"o{i}",
+                            "parents": (";" if (fmt[1] < 3 or wf) else " ; ").join((f"op{j + 1}" if wf else f"o{j}") for j in plist),
                             "baseline_cpu_seconds": fmt_num(o["cpu"], fmt[2]), "cpu_scaling": o["law"],
                             "memory_gb": fmt_num(o["mem"], fmt[3]), "storage_read_gb": fmt_num(o["read"], fmt[4])})
         text = buf.getvalue()
@@ -296,6 +300,30 @@ def run_case(spec):
         if pa.arrival_seconds != want_arrival:
             P("C14:arrival", f"pipeline {k}: arrival {pa.arrival_seconds!r}, written {want_arrival!r}")
         compare_pipeline(ref, pa.pipeline, P, f"pipeline {k}")
+    if spec["kind"] == "handwritten" and spec["fmt"][5] >= 3 and not out.problems:
+        # a file in the writer's format, read and written again: every row reproduced apart from the arrival column
+        from eudoxia.workload.csv_io import CSVWorkloadReader
+        out.label("handwritten_writer_format")
+        try:
+            wl = CSVWorkloadReader(io.StringIO(text)).get_workload(tps)
+            by_tick2 = {}
+            for t in range(nticks + 2):
+                ps_ = wl.run_one_tick()
+                if ps_:
+                    by_tick2[t] = ps_
+            text2 = write_trace(by_tick2, tps, nticks + 2)
+        except Exception as e:
+            P("C14:second-leg-raised", f"{type(e).__name__}: {e}")
+            return out
+        r1, r2 = parse_rows(text), parse_rows(text2)
+        if len(r1) != len(r2):
+            P("C14:second-leg-rows", f"{len(r1)} rows read, {len(r2)} written again")
+        else:
+            for k, (a, b) in enumerate(zip(r1, r2)):
+                f = rows_equal(a, b)
+                if f:
+                    P("C14:second-leg-rows", f"row {k} field {f}: {a.get(f)!r} became {b.get(f)!r}")
+                    break
     if spec["kind"] == "roundtrip" and not out.problems:
         # leg 2: reader -> trace workload -> writer again
         from eudoxia.workload.csv_io import CSVWorkloadReader
